@@ -118,4 +118,76 @@ mod __verif {
         kani::cover!(n == 3 && expect.is_some() && expect != Some(unsafe { crate::api::__verif::SCRIPT[2] }), "a later match ends after pos");
         kani::cover!(n > 0 && expect.is_none());
     }
+
+    fn j6_back_body(empty_match_case: bool) {
+        let re = regex_goal();
+        let text: &'static str = "a\u{e9}b";
+        let (len, bnd) = (4usize, [true, true, false, true, true]);
+        let n = crate::api::__verif::any_script(len, &bnd);
+        let mut s = RegexSearcher::new(re, text);
+        let cur: usize = kani::any();
+        kani::assume(cur <= len && bnd[cur]);
+        s.reverse_pos = cur;
+        let was_done: bool = kani::any();
+        s.reverse_done = was_done;
+        let mut lm: Option<(usize, usize)> = None;
+        let mut i = 0;
+        while i < n {
+            let (a, b) = unsafe { crate::api::__verif::SCRIPT[i] };
+            if b <= cur { lm = Some((a, b)); }
+            i += 1;
+        }
+        // known finding F7b lives in exactly one case: a zero-width match ending at the cursor, not at offset 0
+        let is_empty_case = !was_done && matches!(lm, Some((ms, me)) if me == cur && ms == me && ms > 0);
+        kani::assume(is_empty_case == empty_match_case);
+        let step = s.next_back();
+        if was_done {
+            assert!(matches!(step, SearchStep::Done));
+        } else {
+            match lm {
+                None => {
+                    if cur > 0 {
+                        assert!(matches!(step, SearchStep::Reject(a, b) if a == 0 && b == cur));
+                        assert!(s.reverse_pos == 0);
+                    } else {
+                        assert!(matches!(step, SearchStep::Done));
+                    }
+                    assert!(s.reverse_done);
+                }
+                Some((ms, me)) => {
+                    if me < cur {
+                        assert!(matches!(step, SearchStep::Reject(a, b) if a == me && b == cur), "gap after the last match is rejected");
+                        assert!(s.reverse_pos == me, "cursor = start of the emitted step");
+                    } else {
+                        assert!(matches!(step, SearchStep::Match(a, b) if a == ms && b == me), "the last match ending at the cursor is reported");
+                        assert!(s.reverse_done || s.reverse_pos == ms, "F7b: after a zero-width Match(p,p) the reverse searcher skips to the previous character without emitting Reject(prev, p): the steps do not tile the haystack");
+                    }
+                }
+            }
+        }
+        kani::cover!(cur == 3);
+    }
+
+    // @obligation name=j6_searcher_next_back_step props=C20 fn=api::pattern_impl::RegexSearcher::next_back,api::pattern_impl::RegexSearcher::find_last_match_before kind=bounded bound="every case except a zero-width match ending at the cursor after offset 0 (that case is j6_searcher_next_back_step_empty_match); haystack \"a\u{e9}b\"; ONE call of next_back() from every reverse cursor state; EVERY match sequence of up to 3 matches (symbolic); the search driver is replaced by its contract (cv_drivers)" features=pattern min_checks=300 w=3 timeout=1500 ignore_free_model=1
+    // Inductive step of the ReverseSearcher with the real find_last_match_before: from any state whose reverse cursor c is a
+    // char boundary, next_back() returns a step that ENDS at c, and afterwards the cursor equals the start of that step; the
+    // step is Match(s,e) exactly when the last match ending at or before c ends at c, Reject back to that match's end (or to 0)
+    // otherwise; Done only at offset 0; once done, always Done.
+    #[cfg(feature = "pattern")]
+    #[kani::proof]
+    #[kani::unwind(6)]
+    #[kani::stub(BacktrackExecutor::next_match_with_prefix_search, crate::api::__verif::scripted_search)]
+    fn j6_searcher_next_back_step() {
+        j6_back_body(false);
+    }
+
+    // @obligation name=j6_searcher_next_back_step_empty_match props=C20 fn=api::pattern_impl::RegexSearcher::next_back kind=bounded bound="the case of a zero-width match ending at the cursor after offset 0; haystack \"a\u{e9}b\"; ONE call of next_back(); every match sequence of up to 3 matches" features=pattern finding=F7b min_checks=300 w=3 timeout=1500 ignore_free_model=1
+    // After a zero-width Match(p,p) the next reverse step must END at p (steps adjacent, covering the haystack).
+    #[cfg(feature = "pattern")]
+    #[kani::proof]
+    #[kani::unwind(6)]
+    #[kani::stub(BacktrackExecutor::next_match_with_prefix_search, crate::api::__verif::scripted_search)]
+    fn j6_searcher_next_back_step_empty_match() {
+        j6_back_body(true);
+    }
 }
